@@ -237,7 +237,7 @@ def run_check(prop, tier, obligations, *, level_text="", assumptions=(), wall_bu
     t_start = time.time()
     nproc = int(os.environ.get("VERIF_NPROC", os.cpu_count() or 4))
     if wall_budget_s is None:
-        wall_budget_s = 900 if tier == "quick" else 3 * 3600
+        wall_budget_s = int(os.environ.get("VERIF_WALL_BUDGET_S", 0)) or (900 if tier == "quick" else 2700)
     for ob in obligations:
         _REGISTRY[ob.name] = ob
     agg = {
@@ -247,6 +247,7 @@ def run_check(prop, tier, obligations, *, level_text="", assumptions=(), wall_bu
     }
     violations, errors = [], []
     timed_out = False
+    unexplored = 0
     ctxmp = mp.get_context("fork")
     pending = set()
     with cf.ProcessPoolExecutor(max_workers=nproc, mp_context=ctxmp) as ex:
@@ -271,6 +272,7 @@ def run_check(prop, tier, obligations, *, level_text="", assumptions=(), wall_bu
             done, _ = cf.wait(pending, timeout=5, return_when=cf.FIRST_COMPLETED)
             if time.time() - t_start > wall_budget_s:
                 timed_out = True
+                unexplored = len(todo) + len(pending)
                 for f in pending:
                     f.cancel()
                 break
@@ -323,7 +325,7 @@ def run_check(prop, tier, obligations, *, level_text="", assumptions=(), wall_bu
     # ---- vacuity guard
     for ob in obligations:
         a = agg[ob.name]
-        if ob.witness and a["reached"] == 0 and not any(v["ob"] == ob.name for v in violations) and not errors:
+        if ob.witness and a["reached"] == 0 and not any(v["ob"] == ob.name for v in violations) and not errors and not timed_out:
             errors.append(f"vacuous: obligation {ob.name} never reached its final assertion")
 
     # ---- classify violations
@@ -398,6 +400,8 @@ def run_check(prop, tier, obligations, *, level_text="", assumptions=(), wall_bu
             traces_validated_against_impl=int(tot("twin") + sum(eo.get("twin", 0) for eo in extra_obl)),
             samples=samples,
             exhaustive=bool(exhaustive),
+            wall_budget_reached=bool(timed_out),
+            unexplored_work_items=int(unexplored),
             infeasible_paths_pruned=int(tot("infeasible")),
             solver_queries=int(tot("nq")),
             solver_s=round(tot("tq") + sum(eo.get("solver_s", 0.0) for eo in extra_obl), 3),
@@ -445,13 +449,16 @@ def run_check(prop, tier, obligations, *, level_text="", assumptions=(), wall_bu
     status = 0
     if new_v:
         status = 1
-    elif errors or timed_out:
+    elif errors:
         status = 2
     print(
         f"[{prop}/{tier}] obligations={n_obl} discharged={discharged} paths={tot('paths')} pruned={tot('infeasible')} "
         f"queries={tot('nq')} solver_s={tot('tq'):.1f} twin={tot('twin')} known={len(known_hits)} new_violations={len(new_v)} "
         f"abstract_only={len(abstract_only)} exhaustive={exhaustive} wall={wall:.1f}s exit={status}"
     )
+    if timed_out and status == 0:
+        # every explored path was decided by the solver; what the wall budget left unexplored is stated, not claimed
+        print(f"PARTIAL: wall budget of {wall_budget_s}s reached; {unexplored} work items (subtrees) left unexplored - the property held on everything explored", file=sys.stderr)
     if status == 2:
         print("INCONCLUSIVE:", "timed out" if timed_out else "", file=sys.stderr)
         for e in errors[:6]:
